@@ -186,7 +186,17 @@ pub fn eval_with(case: &Case, ctx: &Ctx, m_obl: usize, s_max: u64, slack: u64) -
 fn run_family(bytes: &[u8], ctx: &Ctx) -> CaseInfo {
     let mut s = Source::new(bytes);
     let c = decode(&mut s);
-    eval(&c, ctx)
+    if std::env::var("PVH_SHOW").is_ok() {
+        eprintln!("SHOW {}", place(&c, c.branches.iter().map(|(g, _)| g.clone()).collect()).show());
+    }
+    // a third of the cases each in one of the builder's construction modes (what the macros
+    // expand to; Disj::from_conjunctions / Conj::from_vec; pairwise Disj::new / Conj::new)
+    let mode = (bytes.iter().map(|b| *b as u32).sum::<u32>() % 3) as u8;
+    let mut info = crate::build::with_api_mode(mode, || eval(&c, ctx));
+    if mode != 0 {
+        info.class("built-with-constructor-functions");
+    }
+    info
 }
 
 /// Scale: disjunctions of up to 200 branches with a few producers / divergers among them, and
